@@ -28,6 +28,19 @@ type Decision struct {
 	Point string `json:"p,omitempty"`
 }
 
+type section struct {
+	enter, exit string
+	owner       *Task
+}
+
+// AddSection declares a critical section delimited by two yield points.
+func (s *Sim) AddSection(enter, exit string) {
+	if s.sections == nil {
+		s.sections = map[string]*section{}
+	}
+	s.sections[enter] = &section{enter: enter, exit: exit}
+}
+
 // Hold is a directed stall: the task, once parked at yield point At, is not
 // eligible to run until yield point For has been released N more times (by
 // anyone), or Max virtual time has passed.
@@ -76,6 +89,10 @@ type Sim struct {
 	taken    map[int64]bool
 	pointN   map[string]int
 	Holds    int // holds that actually took effect
+	// critical sections of repo code that contain yield points (a real mutex
+	// held across yields): a task parked at the Enter point is not eligible
+	// while another task is inside the section. Keyed by Enter point.
+	sections map[string]*section
 	actors   int // actors not yet finished
 	arrival  chan struct{}
 	active   atomic.Bool
@@ -226,6 +243,11 @@ func (s *Sim) Go(name, kind string, fn func()) {
 		defer func() {
 			s.mu.Lock()
 			t.done = true
+			for _, sec := range s.sections {
+				if sec.owner == t {
+					sec.owner = nil
+				}
+			}
 			delete(s.tasks, gid)
 			if t.kind == "actor" {
 				s.actors--
@@ -271,6 +293,11 @@ func (s *Sim) park(t *Task, point string, arg any) {
 	}
 	s.mu.Lock()
 	t.point, t.arg, t.parked = point, arg, true
+	for _, sec := range s.sections {
+		if sec.owner == t && point == sec.exit {
+			sec.owner = nil
+		}
+	}
 	if h := t.hold; h != nil && h.At == point {
 		t.held, t.heldSince, t.heldBase = true, s.Now(), s.pointN[h.For]
 		t.holdInfo = h
@@ -310,6 +337,9 @@ func (s *Sim) eligible(parked []*Task) ([]*Task, time.Duration) {
 	minLeft := time.Duration(0)
 	now := s.Now()
 	for _, t := range parked {
+		if sec := s.sections[t.point]; sec != nil && sec.owner != nil && sec.owner != t {
+			continue // someone is inside the critical section this task wants to enter
+		}
 		if t.held && t.holdInfo != nil {
 			h := t.holdInfo
 			n := h.N
@@ -434,6 +464,9 @@ func (s *Sim) Run() error {
 		s.unpark(choice)
 		s.mu.Lock()
 		s.pointN[choice.point]++
+		if sec := s.sections[choice.point]; sec != nil {
+			sec.owner = choice
+		}
 		s.mu.Unlock()
 		s.last = choice
 		if s.onStep != nil {
